@@ -1,5 +1,5 @@
-From SV Require Import Base.Bytes KeyEnc.Model.
+From SV Require Import Base.Bytes KeyEnc.Model KeyEnc.NetIP.
 Require Extraction.
 Require Import ExtrOcamlBasic.
 Extraction "keyenc_model.ml" keep_types bytes_ltb bytes_eqb nuk primaryLen secondaryLen encodedPrimary encodedSecondary
-  enc dec uint16_key uint32_key uint64_key int16_key int32_key int64_key bool_key string_key lpmEncode lpmDecode.
+  enc dec uint16_key uint32_key uint64_key int16_key int32_key int64_key bool_key string_key lpmEncode lpmDecode netip_prefix_key netip_prefix_lpm_key.
